@@ -11,7 +11,7 @@ def handle(p):
 
     bits = p["bits"]
     vmin, vmax = _f(p["vmin"]), _f(p["vmax"])
-    xs = np.array([[_f(h) for h in p["xs"]]], dtype=float)
+    xs = np.array([[_f(h) for h in p["xs"]]], dtype=float).astype(p.get("frame", "float64"))
     kind, path = p["kind"], p.get("path", "model")
     try:
         with np.errstate(all="ignore"):
